@@ -38,7 +38,9 @@ def canon_doc(doc):
     """save() document with sibling lists sorted by name and without the version stamp"""
     d = json.loads(json.dumps(doc))
     if "system" in d:
-        d["system"].pop("version", None)
+        # the header fields that describe the system; the version stamp and whatever else a writer may add for information
+        # (a format number, a summary) are not part of what the document says about the system
+        d["system"] = {k: v for k, v in d["system"].items() if k in ("name", "phases", "phase_conf", "groups", "rails")}
         for k in ("phase_conf", "groups", "rails"):
             if isinstance(d["system"].get(k), dict):
                 d["system"][k] = dict(sorted(d["system"][k].items()))
